@@ -475,6 +475,13 @@ def run_check(ctx, modules, oracles, faults, explanation, extra_trusted=(), part
             o = rth.scenario(cfg_t)
             nthr += 1
             corr.count("real_threads:" + str(o.get("status")))
+            if o["fail"] and o["fail"][0] == "harness_timeout":
+                # a bounded wait of the scenario itself ran out (10-30 s: an overloaded machine): no verdict from this scenario
+                corr.count("real_threads_no_verdict:harness_timeout")
+                nto = corr.distribution.get("real_threads_no_verdict:harness_timeout", 0)
+                if nto > 10:
+                    raise RuntimeError("thread-pool scenarios keep timing out: " + o["fail"][1])
+                continue
             if o["fail"]:
                 failures.append({"clause": o["fail"][0], "signature": f"{ctx.prop_id}.{o['fail'][0]}:thread_pool", "detail": o["fail"][1],
                                  "replay": {"real_threads": o["cfg"]}})
